@@ -84,9 +84,16 @@
                               non-empty for Host::parse (host_parse_ok_on), which the REAL host functions satisfy
                               relative to the first clause of the oracle hypothesis (IdnaOut): C07_statement's clauses
                               and all histories for the linked model against the Standard with its own host parser
-   The gap: host / hostname / pathname on file URLs (class 4 of Known_C07 covers them all), inputs and href
-   values whose scheme is "file", href values whose URL exceeds u32::MAX bytes, and host_parse_ok / host_parse_ok_on
-   (or the concrete host functions under IdnaOut) in place of hosts_agree.
+     C07_parse_file_shaped, C07_corr_sane, C07_parse_all_corrS2, C07_href_equiv2, C07_statement_on2,
+     C07_statement_ten_all2, C07_real_host_parse_ok_onF, C07_statement_model2, C07_model_histories2
+                              inputs and href values whose scheme is "file": the parse clause for EVERY input outside
+                              Known_C01 (as in C07_statement) and href on every value up to the Overflow arm, from
+                              C01_statement_all3; the host hypothesis gains "the two host parsers agree on 'localhost'"
+                              (host_parse_ok_onF), met by the real host functions under IdnaOut; the three clauses and
+                              all histories without the premise input_is_file = false
+   The gap: href values whose URL exceeds u32::MAX bytes, host_parse_ok_onF (or the concrete host functions under
+   IdnaOut) in place of hosts_agree, strings that are not scalar-value strings.  (host / hostname / pathname on file
+   URLs: class 4 of Known_C07 covers them all - an exclusion of the statement.)
    It is covered by the fixed-seed differential run implementation <-> specification model of the
    harness (a test). *)
 From Coq Require Import String.
